@@ -5,6 +5,7 @@ import ast
 from ..core.absint import Interp, alternatives, pretty, subst
 from ..core.analysis import Analysis, facts
 from ..core.astutil import handler_catches
+from ..core.cfg import handler_names
 from ..core.forms import (DIMLESS, NotPolynomial, Poly, Rat, U, UnitError, canon, expand,
                           srcinfo, to_rat, unit_of, ustr)
 from ..core.pyrepo import Repo, calls_in, dotted, norm_stmt
@@ -287,7 +288,7 @@ def run(ctx):
     # ------------------------------------------------------------------- R5
     ctx.rule("C08.R5", "fallback estimate: free - low watermarks (pages*PAGESIZE) + "
              "file LRU - min(file LRU/2, wm) + reclaimable slab - min(slab/2, wm); "
-             "free + cached when a key or /proc/zoneinfo is missing", floor=2)
+             "free + cached when a key or /proc/zoneinfo is missing", floor=5)
     ca = repo.func(pm, "calculate_avail_vmem")
     # evaluate on a symbolic table of byte values
     mems = ("dictof", ("param", "k"), ("param", "v"))
@@ -357,6 +358,62 @@ def run(ctx):
     else:
         ctx.fail("C08.R5", "simple-fallback", ca.file, ca.node.lineno, ca.qual,
                  "the (free + cached) approximation for missing inputs changed")
+
+    # each input of the estimate is REQUIRED: absent -> the simple fallback, never
+    # a silent 0 fed into the watermark formula (documented in the function's own
+    # comment: "We use fallback when one of these is missing")
+    parents = {}
+    for n in ast.walk(ca.node):
+        for c in ast.iter_child_nodes(n):
+            parents[id(c)] = n
+    fb_names = set()
+    for n in ast.walk(ca.node):
+        if isinstance(n, ast.Assign) and len(n.targets) == 1 and isinstance(n.targets[0], ast.Name):
+            txt = norm_stmt(n.value)
+            if "MemFree" in txt or ("Cached" in txt and "free" in txt):
+                if "Cached" in txt:
+                    fb_names.add(n.targets[0].id)
+    for K in (b"Active(file):", b"Inactive(file):", b"SReclaimable:"):
+        reads = [n for n in ast.walk(ca.node)
+                 if (isinstance(n, ast.Subscript) and isinstance(n.slice, ast.Constant)
+                     and n.slice.value == K)
+                 or (isinstance(n, ast.Call) and isinstance(n.func, ast.Attribute)
+                     and n.func.attr in ("get", "pop", "setdefault") and n.args
+                     and isinstance(n.args[0], ast.Constant) and n.args[0].value == K)]
+        key = f"required-key:{K.decode()}"
+        if not reads:
+            ctx.fail("C08.R5", key, ca.file, ca.node.lineno, ca.qual,
+                     f"{K!r} is no longer an input of the estimate")
+            continue
+        bad = None
+        for r in reads:
+            if isinstance(r, ast.Call):
+                bad = (r, f"`{norm_stmt(r)}` supplies a default for a missing {K.decode()!r}: "
+                          f"the watermark formula is evaluated with it instead of returning "
+                          f"the documented (free + cached) fallback")
+                break
+            cur, child, good = parents.get(id(r)), r, False
+            while cur is not None and cur is not ca.node:
+                if isinstance(cur, ast.Try) and any(any(child is x for x in ast.walk(b))
+                                                    for b in cur.body):
+                    for h in cur.handlers:
+                        nm = handler_names(h)
+                        if nm is None or nm & {"KeyError", "LookupError", "Exception"}:
+                            rets = [x for x in ast.walk(h) if isinstance(x, ast.Return)]
+                            if rets and all(isinstance(x.value, ast.Name) and x.value.id in fb_names
+                                            or (x.value is not None and "Cached" in norm_stmt(x.value)
+                                                and "MemFree" in norm_stmt(x.value))
+                                            for x in rets) and isinstance(h.body[-1], ast.Return):
+                                good = True
+                child, cur = cur, parents.get(id(cur))
+            if not good:
+                bad = (r, f"`{norm_stmt(r)}` is not inside a try whose KeyError handler "
+                          f"returns the (free + cached) fallback")
+                break
+        if bad:
+            ctx.fail("C08.R5", key, ca.file, bad[0].lineno, ca.qual, bad[1])
+        else:
+            ctx.ok("C08.R5", key, sample="mems[K] under try/except KeyError -> return fallback")
 
     # ------------------------------------------------------------------- R6
     ctx.rule("C08.R6", "swap counters: pswpin/pswpout are PAGES in /proc/vmstat; the "
